@@ -37,6 +37,7 @@ pub struct Written {
     /// scalars that were emitted plain / quoted (statistics)
     pub plain_strings: u32,
     pub quoted_strings: u32,
+    pub block_scalars: u32,
 }
 
 struct W<'a, 'b> {
@@ -48,6 +49,7 @@ struct W<'a, 'b> {
     plain: u32,
     quoted: u32,
     layout: bool,
+    block_scalars: u32,
 }
 
 const KEYWORDS: [&str; 11] = ["y", "n", "yes", "no", "on", "off", "true", "false", "null", "~", ""];
@@ -311,12 +313,53 @@ impl<'a, 'b> W<'a, 'b> {
                 self.put(" ");
                 self.flow(x, ptr, 0);
             }
+            V::Str(t) if self.layout && block_scalar_ok(t) && self.u.chance(1, 3) => {
+                // literal / folded block scalar: always a string, whatever the text looks like
+                self.put(" ");
+                self.mark(ptr);
+                let clip = t.ends_with('\n');
+                let body = if clip { &t[..t.len() - 1] } else { &t[..] };
+                let header = if clip {
+                    "|"
+                } else if !body.contains('\n') && self.u.chance(1, 3) {
+                    ">-"
+                } else {
+                    "|-"
+                };
+                self.put(header);
+                if self.u.chance(1, 6) {
+                    self.put(" # block scalar");
+                }
+                let ind = indent + 1 + self.u.below(3);
+                for line in body.split('\n') {
+                    self.put("\n");
+                    if !line.is_empty() {
+                        self.put(&" ".repeat(ind));
+                        self.put(line);
+                    }
+                }
+                self.quoted += 1;
+                self.block_scalars += 1;
+            }
             s => {
                 self.put(" ");
                 self.scalar(s, ptr, true);
             }
         }
     }
+}
+
+/// May this string be written as a literal block scalar (`|`, `|-`) with auto-detected indentation?
+fn block_scalar_ok(s: &str) -> bool {
+    let body = s.strip_suffix('\n').unwrap_or(s);
+    if body.is_empty() || body.starts_with(' ') || body.starts_with('\n') || body.ends_with('\n') {
+        return false;
+    }
+    if body.chars().any(|c| (c != '\n' && (c as u32) < 0x20) || c as u32 == 0x7f || c == '\u{85}' || c == '\u{2028}' || c == '\u{2029}' || c == '\u{feff}') {
+        return false;
+    }
+    // no whitespace-only lines, no trailing blanks on the last line
+    !body.split('\n').any(|l| !l.is_empty() && l.trim().is_empty()) && !body.ends_with(' ')
 }
 
 /// Leading blank lines / indentation before the document proper: positions are relative to the
@@ -345,7 +388,7 @@ fn lead(w: &mut W, spaces: bool) {
 }
 
 pub fn write_doc(v: &V, style: Style, u: &mut Choices, layout: bool) -> Written {
-    let mut w = W { u, out: String::new(), line: 0, col: 0, pos: BTreeMap::new(), plain: 0, quoted: 0, layout };
+    let mut w = W { u, out: String::new(), line: 0, col: 0, pos: BTreeMap::new(), plain: 0, quoted: 0, layout, block_scalars: 0 };
     match style {
         Style::JsonCompact => {
             lead(&mut w, true);
@@ -378,8 +421,8 @@ pub fn write_doc(v: &V, style: Style, u: &mut Choices, layout: bool) -> Written 
             w.block(v, "", 0, unit, seq_indent)
         }
     }
-    if !layout || w.u.chance(3, 4) {
+    if !layout || w.block_scalars > 0 || w.u.chance(3, 4) {
         w.put("\n");
     }
-    Written { text: w.out, pos: w.pos, plain_strings: w.plain, quoted_strings: w.quoted }
+    Written { text: w.out, pos: w.pos, plain_strings: w.plain, quoted_strings: w.quoted, block_scalars: w.block_scalars }
 }
